@@ -684,7 +684,14 @@ def is_(ex, a, b):
             return True
         if isinstance(other, Sym):
             if isinstance(other.kind, K.Opt):
-                return Sym(K.Bool, other.kind.is_none(other.t))
+                t_ = other.kind.is_none(other.t)
+                k_, v_ = other.kind, other.t
+                # nested options (a mapping whose values may themselves be None, read with .get): None at any level
+                while isinstance(k_.inner, K.Opt):
+                    v_ = k_.val(v_)
+                    k_ = k_.inner
+                    t_ = z3.Or(t_, k_.is_none(v_))
+                return Sym(K.Bool, t_)
             if other.kind == K.Dyn:
                 return Sym(K.Bool, K.dyn_sorts()[0].is_JNone(other.t))
         return False
